@@ -117,6 +117,10 @@ func (c *Class) Evaluation(
 		return err
 	}
 
+	if nextT.IsNewLineIdentifier() {
+		return fmt.Errorf("class name is missing")
+	}
+
 	nextFrame := c.getNextFrame(ctx)
 	class := nextT.ToString()
 
